@@ -1,5 +1,6 @@
 import RlModel.Lemmas.Exec
 import RlModel.Lemmas.ExecNull
+import RlModel.Lemmas.ExecAgg
 import RlModel.Lemmas.ExecSorted
 /-!
 C11 — all physical implementations of an operator agree.
@@ -229,31 +230,20 @@ theorem rowpath_eq_spec (k : AggKind) (hk : k = .count ∨ k = .rowCount ∨ k =
   · exact rowpath_min_eq_spec vs
   · exact rowpath_max_eq_spec vs
 
-/-- FULL statement `simpleagg_eq_hashagg_nokeys` for SUM (false): on a non-empty input the chunk
-path (agg) and the row path (hashagg without keys) return the same sum. -/
-theorem simpleagg_eq_hashagg_nokeys_sum_unsound :
-    ¬ (∀ vs : List Val, vs ≠ [] →
-        chunkPathVal .sum .i32 [(vs, vs.map rawOfVal)] = rowPathVal .sum vs) := by
-  intro h
-  have := h [.i32 5, .null, .i32 3] (by decide)
-  revert this; decide
+/-- `simpleagg_eq_hashagg_nokeys` for SUM: the chunk path (agg) and the row path (hashagg without
+keys) return the same sum on every INT input — unconditional since the aggregate `fix:` commits. -/
+theorem simpleagg_eq_hashagg_nokeys_sum (cols : List (List Val × List Int)) (hc : ∀ c ∈ cols, I32Col c.1) :
+    chunkPathVal .sum .i32 cols = rowPathVal .sum (cols.flatMap (·.1)) := by
+  have hall : I32Col (cols.flatMap (·.1)) := by
+    intro v hv
+    obtain ⟨c, hcm, hvc⟩ := List.mem_flatMap.mp hv
+    exact hc c hcm v hvc
+  rw [chunkpath_sum_eq_spec cols hc, rowpath_sum_eq_spec _ hall]
 
-/-- … it holds when no NULL is involved (INT values). -/
-theorem simpleagg_eq_hashagg_nokeys_sum_partial (w : Int) (ws : List Int) :
-    chunkPathVal .sum .i32 [((w :: ws).map Val.i32, w :: ws)] = rowPathVal .sum ((w :: ws).map Val.i32) := by
-  have h1 := rowpath_sum_partial 0 (w :: ws)
-  simp only [List.replicate_zero, List.nil_append] at h1
-  rw [h1]
-  have hs : ∀ X, aggVal .sum X = aggSum X := fun _ => rfl
-  rw [hs]
-  unfold chunkPathVal initAgg evalAgg aggSum
-  have hnn : nonNull ((w :: ws).map Val.i32) = (w :: ws).map Val.i32 := by
-    have := nonNull_replicate_append 0 (w :: ws); simpa using this
-  rw [hnn]
-  have := intsOf_map_i32 (w :: ws)
-  simp only [List.map_cons] at this ⊢
-  rw [this]
-  simp [AggState.result, addExt, Val.isNull, arrSum, zeroOf, Val.withInt]
+/-- regression input (witness of the former `…_sum_unsound`): 5, NULL, 3 sums to 8 on both paths. -/
+theorem simpleagg_eq_hashagg_nokeys_sum_regression :
+    chunkPathVal .sum .i32 [([.i32 5, .null, .i32 3], [5, 0, 3])] = rowPathVal .sum [.i32 5, .null, .i32 3] := by
+  decide
 
 /-- `first`: the chunk path takes the first ELEMENT of the chunk, the row path the first non-NULL. -/
 theorem simpleagg_eq_hashagg_nokeys_first_unsound :
@@ -306,13 +296,14 @@ theorem chunking_irrelevant_hashsemijoin (anti : Bool) (lk rk : List (Row → Va
   unfold hashSemiJoin
   rw [flat_map_filter, flat_map_filter, flat_rechunk, flat_rechunk]
 
-/-- FULL statement for the simple aggregation (false): the chunk path looks at chunks.  An empty
-stream and a stream of one empty chunk (what a filter leaves of an all-filtered chunk) have the
-same rows but SUM is NULL for the first and 0 for the second; `first`/`last` see chunk ends. -/
+/-- FULL statement for the simple aggregation (false): the chunk path looks at chunks — `first` takes
+the first ELEMENT of the first chunk that has a non-NULL first element: (NULL), (5) in two chunks gives
+5, in one chunk NULL.  (SUM was chunk dependent too — empty stream NULL, one empty chunk 0 — until the
+`fix:` commit "SUM of no non-null value is NULL".) -/
 theorem chunking_irrelevant_simpleagg_unsound :
     ¬ (∀ (aggs : List XAgg) (k : Nat) (Xs : List Chunk), simpleAgg aggs (rechunk k Xs) = simpleAgg aggs Xs) := by
   intro h
-  have := h [{ kind := .sum, arg := fun r => r.getD 0 .null, ty := .i32 }] 0 []
+  have := h [{ kind := .first, arg := fun r => r.getD 0 .null, ty := .i32 }] 0 [[[.null]], [[.i32 5]]]
   revert this; decide
 
 /-- … it holds for COUNT(*) … (rows are counted chunk by chunk). -/
